@@ -131,17 +131,11 @@ def autoSave (cfg : Cfg) (r : R) : R :=
 def app1 (cfg : Cfg) (r : R) (op : Op) : Option R :=
   (step? cfg r.s op).map fun s' => autoSave cfg { r with s := s' }
 
-/-- bring job `f` to a state from which the bytes up to `upto` can be read: truncation detection
-    (`processEOF`) when the file is shorter than the job's offset, job re-creation when the offset regressed -/
-def prepare (cfg : Cfg) (r : R) (f upto : Nat) (regressOk : Bool) : Option R := do
+/-- truncation detection (`processEOF`) when the file is shorter than the job's offset -/
+def prepare (cfg : Cfg) (r : R) (f : Nat) : Option R := do
   let fl ← r.s.files f
   let j ← r.s.jobs f
-  let r ← if j.w.curOffset > fl.content.length then app1 cfg r (.readTurn f []) else pure r
-  let j ← r.s.jobs f
-  if regressOk && decide (upto ≤ j.w.curOffset) && !r.s.scanning then do
-    let r ← app1 cfg r (.forget f)
-    app1 cfg r (.discover f)
-  else pure r
+  if j.w.curOffset > fl.content.length then app1 cfg r (.readTurn f []) else pure r
 
 def readUpto (cfg : Cfg) (r : R) (f upto : Nat) : Option R := do
   let fl ← r.s.files f
@@ -168,12 +162,12 @@ def stepRec (cfg : Cfg) (t : Table) (r : R) (rest : List Rec) : Rec → Option R
   | .disc f => app1 cfg r (.discover f)
   | .scan => app1 cfg r .scanDone
   | .inp f off pass => do
-    let r ← prepare cfg r f off true
+    let r ← prepare cfg r f
     let before := r.s.inLog
     let r ← readUpto cfg r f off
     if r.s.inLog == before ++ [(f, off, pass)] then pure r else none
   | .eof f size => do
-    let r ← prepare cfg r f size false
+    let r ← prepare cfg r f
     let fl ← r.s.files f
     if fl.content.length ≠ size then none
     let before := r.s.inLog
